@@ -109,6 +109,20 @@ CHECKS = {
             "the index does not change between the pages of one query (C17 covers concurrent writers)",
         ],
     },
+    "C18": {
+        "trace_module": "Trace_TxPool",
+        "mc": [{"module": "MC_TxPool", "cfg": "MC_TxPool.cfg", "timeout": {"quick": 300, "thorough": 600}, "workers": 4}],
+        "drivers": [{"name": "txpool", "driver": "txpool", "args": [], "trace_module": "Trace_TxPool",
+                     "n": {"quick": 25, "thorough": 250}, "procs": {"quick": 6, "thorough": 14},
+                     "tier_args": {"quick": ["steps=120"], "thorough": ["steps=250"]}}],
+        "assumptions": COMMON_ASSUMPTIONS + [
+            "valid transactions spend always_success-locked cells of a generated chain that the client indexed (plus outputs of pending transactions) with the genesis always_success cell as code dep; the script really runs in the CKB VM",
+            "every known cell counts as live (Storage::cell documents 'assume all cells are live'): double spends of indexed cells are outside the property",
+            "mutants break exactly one rule by construction (capacity, duplicated / unknown / out-of-range input, unknown dep, immature since, lock code not present, no outputs)",
+            "'at most once' is per membership of the pool: a transaction evicted and submitted again later is announced again",
+            "the relay tick is not run while no peer has the relay protocol open (then it only asks the network service to open it); 60 s inactivity windows (Instant) are not exercised",
+        ],
+    },
     "C14": {
         "trace_module": "Trace_Difficulty",
         "mc": [{"module": "MC_Difficulty", "cfg": {"quick": "MC_Difficulty_quick.cfg", "thorough": "MC_Difficulty.cfg"},
